@@ -69,6 +69,40 @@ def slice_case(draw):
             for r in recs:
                 r[2] = None
     sc["perm"] = None
+    if draw(st.integers(0, 3)) == 0:
+        # several anchored adapters with the index enabled: the slice predicate needs no model of the index
+        side = draw(st.sampled_from(["prefix", "suffix"]))
+        n = draw(st.integers(2, 4))
+        defs = [draw(scen.adapter_def(i, 0, kinds=[side], allow_linked=False, allow_params=False)) for i in range(n)]
+        if draw(st.booleans()):
+            base = defs[0]["seqs"][0]
+            for i, d in enumerate(defs[1:], 1):
+                s2 = base[: draw(st.integers(3, len(base)))] + draw(st.text(alphabet="ACGT", max_size=3))
+                s2 = s2.replace("N", "A")
+                d["seqs"] = [s2]
+                d["spec"] = f"{d['name']}=" + (("^" + s2) if side == "prefix" else (s2 + "$"))
+        for d in defs:
+            d["seqs"] = [d["seqs"][0].replace("N", "A")]
+            d["spec"] = f"{d['name']}=" + (("^" + d["seqs"][0]) if side == "prefix" else (d["seqs"][0] + "$"))
+        sc["ad1"] = defs
+        sc["glob"] = dict(sc["glob"], no_index=False)
+        sc["glob"].pop("N", None)
+        sc["o"]["pair_adapters"] = False
+        if sc["o"].get("action") == "crop" or True:
+            pass
+        # reads: whole adapters, adapters with one deletion, short reads
+        for recs in (sc["r1"],):
+            for rec in recs:
+                k = draw(st.integers(0, 3))
+                if k <= 1:
+                    a = draw(st.sampled_from(defs))["seqs"][0]
+                    if k == 1 and len(a) > 3:
+                        p = draw(st.integers(0, len(a) - 1))
+                        a = a[:p] + a[p + 1:]
+                    body = draw(st.text(alphabet="ACGT", max_size=draw(st.sampled_from([0, 0, 2, 8]))))
+                    seq = a + body if side == "prefix" else body + a
+                    rec[1] = seq
+                    rec[2] = None if rec[2] is None else ("I" * len(seq))
     return sc
 
 
